@@ -17,3 +17,9 @@ package shutterevents
 //@ func (*BatchConfig).EnsureValid
 //@   requires bc != nil && len(bc.Keypers) <= 1048576
 //@   ensures ret0 == nil <==> cfgValid(bc)
+//@
+//@ // ---- C14: events as shuttermint wrote them ---------------------------------------------------------------
+//@ // positional attribute-name check: what makes every ev.Attributes[k] below an in-bounds index
+//@ func expectAttributes
+//@   ensures ret0 == nil ==> (len(ev.Attributes) >= len(names) && (forall i :: 0 <= i && i < len(names) ==> ev.Attributes[i].Key == names[i]))
+//@   invariant forall j :: 0 <= j && j <= rangeindex ==> ev.Attributes[j].Key == names[j]
